@@ -1431,7 +1431,7 @@ def paste_chunks(text):
 F19_WITNESS = ("vi", [b"a" * 66000], ["Esc", "R", "Esc", ".", "Enter"])
 F20_WITNESS = ("emacs", [b"x\n" + b"a" * 66000], ["Up", "Enter"])
 F23_WITNESS = ("vi", [b"a" * 65537 + b"\n"], ["Esc", "k", "j", "Enter"])
-F24_WITNESS = ("emacs", [b"\n" * 66000], ["Up", "Enter"])
+F24_WITNESS = ("emacs", [b"\n" * 66000], ["Up", "Enter"])        # beyond the stated bound; kept as the regression of F24
 
 
 def c17_long_cases(tier, seed):
@@ -1463,6 +1463,8 @@ def c17_long_cases(tier, seed):
         mode = rng.choice(["vi", "emacs"])
         size = rng.choice([65534, 65535, 65536, 65537, 66000, 70000, 131072 + 5])
         unit = rng.choice([b"a", b"a", b"ab ", b"\xc3\xa9", b"\xe6\x97\xa5", b"x y", b"\n", b"a\n", b"\t"])
+        if b"\n" in unit:
+            size = min(size, 12000 * len(unit))      # rows stay below u16::MAX even after a few repeats ( . ) of the paste: the layout counts rows in u16 (stated bound)
         text = (unit * (size // len(unit) + 1))[:size]
         while text and (text[-1] & 0xc0) == 0x80 or (text and text[-1] >= 0xc0):
             text = text[:-1]
